@@ -30,42 +30,53 @@ Definition sim_neighborhood (s : @nbr R A G) (row cache : list R) (oracle : list
 Definition lp_is_ts (l : @lp R A G) : bool := match l with LCf c => cf_is_ts c | LLin _ => false end.
 Definition lp_stored_exp (l : @lp R A G) : list (A * R) := match l with LCf c => c_exp c | LLin _ => [] end.
 
-(* one reported row: the prediction, the dictionary appended to row_arm_to_expectation, the neighbourhood size *)
-Definition srow : Type := (option A * exps * nat)%type.
+(* the statistics of the neighbours' rewards per arm ({} = None for an arm no neighbour took; [] for an empty neighbourhood
+   or a quick simulation) *)
+Definition nstat_row : Type := list (A * option (@stats R)).
+
+(* one reported row: the prediction, what is appended to row_arm_to_expectation and to neighborhood_arm_to_stat,
+   the neighbourhood size *)
+Definition srow : Type := (option A * (exps * nstat_row) * nat)%type.
+
+(* _get_nhood_predictions, the statistics part: per arm, get_stats of the neighbours' (raw) rewards *)
+Definition nhood_stats (arms : list A) (quick : bool) (ds : list A) (rs : list R) : nstat_row :=
+  if quick then [] else
+  map (fun a => (a, match arm_rewards aeqb a ds rs with [] => None | ar => Some (get_stats N ar) end)) arms.
 
 (* _predict_contexts body for one row + _get_nhood_predictions(is_predict=True):
    lp.fit(neighbours); prediction = lp.predict(row); expectations = the stored sample for Thompson sampling,
    a SECOND call lp.predict_expectations(row) on the same generator otherwise *)
-Definition simnbr_row (s : @nbr R A G) (l : @lp R A G) (seed : Z) (row cache : list R) (oracle : list nat)
+Definition simnbr_row (s : @nbr R A G) (l : @lp R A G) (quick : bool) (raw : list R) (seed : Z) (row cache : list R) (oracle : list nat)
   : option (srow * @lp R A G) :=
   let g := create RG seed in
   match sim_neighborhood s row cache oracle with
   | None => None
   | Some [] =>
       let (v, _) := draw_z RG g (RqChoice (length (n_arms s)) (n_nnprob s)) in
-      Some ((nth_error (n_arms s) (Z.to_nat (match v with x :: _ => x | [] => 0%Z end)), [], O), l)
+      Some ((nth_error (n_arms s) (Z.to_nat (match v with x :: _ => x | [] => 0%Z end)), ([], []), O), l)
   | Some idx =>
       let ds := map (fun i => nth_error (n_ds s) i) idx in
       let ds' := flat_map (fun o => match o with Some a => [a] | None => [] end) ds in
       let rs := select (n_rs s) (zero N) idx in
       let cx := select (n_cx s) [] idx in
+      let st := nhood_stats (n_arms s) quick ds' (select raw (zero N) idx) in
       let (l1, ok) := lp_fit N aeqb l g ds' rs cx in
       if negb ok then None else
       let '(e, l2, g2) := lp_expectations1 N aeqb RG l1 g row in
       let pred := argmax_first N e in
-      if lp_is_ts l2 then Some ((pred, some_exp (lp_stored_exp l2), length idx), l2)
+      if lp_is_ts l2 then Some ((pred, (some_exp (lp_stored_exp l2), st), length idx), l2)
       else let '(e2, l3, _) := lp_expectations1 N aeqb RG l2 g2 row in
-           Some ((pred, some_exp e2, length idx), l3)
+           Some ((pred, (some_exp e2, st), length idx), l3)
   end.
 
-Fixpoint simnbr_rows (s : @nbr R A G) (l : @lp R A G) (seeds : list Z) (rows caches : mat (R:=R)) (oracles : list (list nat))
+Fixpoint simnbr_rows (s : @nbr R A G) (l : @lp R A G) (quick : bool) (raw : list R) (seeds : list Z) (rows caches : mat (R:=R)) (oracles : list (list nat))
   : option (list srow) :=
   match seeds, rows with
   | sd :: seeds', row :: rows' =>
-      match simnbr_row s l sd row (hd [] caches) (hd [] oracles) with
+      match simnbr_row s l quick raw sd row (hd [] caches) (hd [] oracles) with
       | None => None
       | Some (r, l') =>
-          match simnbr_rows s l' seeds' rows' (tl caches) (tl oracles) with
+          match simnbr_rows s l' quick raw seeds' rows' (tl caches) (tl oracles) with
           | None => None
           | Some rest => Some (r :: rest)
           end
@@ -74,12 +85,12 @@ Fixpoint simnbr_rows (s : @nbr R A G) (l : @lp R A G) (seeds : list Z) (rows cac
   end.
 
 (* _NeighborsSimulator.predict = _parallel_predict over the simulator's _predict_contexts *)
-Definition simnbr_predict (s : @nbr R A G) (g : G) (cx caches : mat (R:=R)) (oracles : list (list nat)) (sizes : list nat)
+Definition simnbr_predict (s : @nbr R A G) (quick : bool) (raw : list R) (g : G) (cx caches : mat (R:=R)) (oracles : list (list nat)) (sizes : list nat)
   : option (list srow) * G :=
   let (seeds, g1) := draw_z RG g (RqRandint 2147483647 (length cx)) in
   let parts := combine (combine (combine (chunks sizes seeds) (chunks sizes cx)) (chunks sizes caches)) (chunks sizes oracles) in
   let res := map (fun p => let '(sd, rows, cch, orc) := (p : list Z * mat (R:=R) * mat (R:=R) * list (list nat)) in
-                           simnbr_rows s (n_lp s) sd rows cch orc) parts in
+                           simnbr_rows s (n_lp s) quick raw sd rows cch orc) parts in
   (fold_right (fun r acc => match r, acc with Some x, Some y => Some (x ++ y) | _, _ => None end) (Some []) res, g1).
 
 (* calculate_distances: cdist(self.contexts, row, metric) for every row of the chunk *)
@@ -87,10 +98,17 @@ Definition sim_distances (s : @nbr R A G) (cx : mat (R:=R)) : mat (R:=R) :=
   map (fun row => map (fun c => distance N (n_metric s) c row) (n_cx s)) cx.
 
 (* ---- the objects in Simulator.bandits after _train_bandits ------------------------------------- *)
+(* the extra attributes of a simulator class: row_arm_to_expectation and neighborhood_arm_to_stat (one entry per predicted row,
+   append-only), raw_rewards (the unconverted rewards, kept when the policy is Thompson sampling with a binarizer), is_quick *)
+Record nbk : Type := mkNbk { k_rows : list (exps * nstat_row); k_raw : list R; k_quick : bool }.
+
 Inductive sbandit : Type :=
 | SMab (m : @mab R A G)                                        (* kept: context-free, linear, Clusters, TreeBandit *)
-| SNbr (s : @nbr R A G) (g : G) (rae : list exps).             (* Radius / KNearest / LSHNearest replaced; shares lp and rng
-                                                                  with the original; rae = row_arm_to_expectation *)
+| SNbr (s : @nbr R A G) (g : G) (bk : nbk).                    (* Radius / KNearest / LSHNearest replaced; shares lp and rng
+                                                                  with the original *)
+
+(* the rewards the neighbourhood statistics are taken over *)
+Definition stat_rewards (s : @nbr R A G) (bk : nbk) : list R := if lp_is_ts_binz (n_lp s) then k_raw bk else n_rs s.
 
 Definition metric_eqb (a b : metric) : bool :=
   match a, b with
@@ -107,11 +125,11 @@ Fixpoint dc_find (dc : dcache) (m : metric) : option (mat (R:=R)) :=
 Definition uses_cache (s : @nbr R A G) : bool := match n_kind s with NLsh _ _ => false | _ => true end.
 
 (* _train_bandits for one bandit: replace, then fit on the training rows.  The flag is false when fit raises. *)
-Definition sim_train (m : @mab R A G) (ds : list A) (rs : list R) (cx : option ctxs) (orc : oracle) : sbandit * bool :=
+Definition sim_train (quick : bool) (m : @mab R A G) (ds : list A) (rs : list R) (cx : option ctxs) (orc : oracle) : sbandit * bool :=
   match m_imp m with
   | INbr s =>
       let s0 := nbr_init (n_kind s) (n_metric s) (n_nnprob s) (n_kf_newarm0 s) (n_arms s) (n_lp s) in
-      let (s1, g1) := nbr_fit N RG s0 (m_rng m) ds rs (octx cx) in (SNbr s1 g1 [], true)
+      let (s1, g1) := nbr_fit N RG s0 (m_rng m) ds rs (octx cx) in (SNbr s1 g1 (mkNbk [] rs quick), true)
   | _ => let (m1, o) := step N aeqb RG m (Fit ds rs cx orc) in
          (SMab m1, match o with ODone => true | _ => false end)
   end.
@@ -150,7 +168,8 @@ Definition sim_query (b : sbandit) (dc : dcache) (cx : option ctxs) (n lo hi : n
       else
         let (m1, r) := cf_predict_n m n orc_p in
         (SMab m1, dc, option_map (fun p => (p, cf_exp_now m1)) r)
-  | SNbr s g rae =>
+  | SNbr s g bk =>
+      let rae := k_rows bk in
       let rows := octx cx in
       let '(cache, dc') :=
         if uses_cache s then
@@ -159,12 +178,12 @@ Definition sim_query (b : sbandit) (dc : dcache) (cx : option ctxs) (n lo hi : n
           | None => let c := sim_distances s rows in (c, dc ++ [(n_metric s, c)])
           end
         else ([], dc) in
-      let (r, g1) := simnbr_predict s g rows cache (o_knn orc_p) (o_sizes orc_p) in
+      let (r, g1) := simnbr_predict s (k_quick bk) (stat_rewards s bk) g rows cache (o_knn orc_p) (o_sizes orc_p) in
       match r with
-      | None => (SNbr s g1 rae, dc', None)
+      | None => (SNbr s g1 bk, dc', None)
       | Some l =>
           let rae' := rae ++ map (fun x => snd (fst x)) l in
-          (SNbr s g1 rae', dc', Some (map (fun x => fst (fst x)) l, slice lo hi rae'))
+          (SNbr s g1 (mkNbk rae' (k_raw bk) (k_quick bk)), dc', Some (map (fun x => fst (fst x)) l, map fst (slice lo hi rae')))
       end
   end.
 
@@ -175,7 +194,7 @@ Definition sim_update (b : sbandit) (ds : list A) (rs : list R) (cx : option ctx
       let cx' := if is_contextual (m_imp m) then cx else None in
       let (m1, o) := step N aeqb RG m (PartialFit ds rs cx' orc) in
       (SMab m1, match o with ODone => true | _ => false end)
-  | SNbr s g rae => (SNbr (nbr_partial_fit N s ds rs (octx cx)) g rae, true)
+  | SNbr s g bk => (SNbr (nbr_partial_fit N s ds rs (octx cx)) g (mkNbk (k_rows bk) (k_raw bk ++ rs) (k_quick bk)), true)
   end.
 
 (* one batch of test rows (the whole test set when offline) *)
@@ -243,10 +262,45 @@ Fixpoint sim_online (bs : list (sbandit * report)) (lo : nat) (batches : list ba
   end.
 
 (* Simulator.run for the bandits [ms]: train everything, then test.  [batches] = [] means offline. *)
-Definition sim_train_all (ms : list (@mab R A G)) (train : batch) (orcs : list oracle) : list (sbandit * report) :=
-  map (fun mo => let (b, ok) := sim_train (fst mo) (b_ds train) (b_rs train)
+Definition sim_train_all (quick : bool) (ms : list (@mab R A G)) (train : batch) (orcs : list oracle) : list (sbandit * report) :=
+  map (fun mo => let (b, ok) := sim_train quick (fst mo) (b_ds train) (b_rs train)
                                           (if is_contextual (m_imp (fst mo)) then b_cx train else None) (snd mo) in
                  (b, if ok then Some ([], []) else None))
       (combine ms (orcs ++ repeat orc0 (length ms))).
+
+(* ---- evaluation (default_evaluator over the finished records) ------------------------------------------- *)
+(* bandit_to_arm_to_stats_neighborhoods: neighborhood_arm_to_stat, in the shape Sim.credited reads *)
+Definition conv_nstat (row : nstat_row) : option (list (A * @stats R)) :=
+  match row with
+  | [] => None
+  | _ => Some (flat_map (fun ao => match snd ao with Some st => [(fst ao, st)] | None => [] end) row)
+  end.
+
+Definition bandit_nstats (b : sbandit) : option (list (option (list (A * @stats R)))) :=
+  match b with
+  | SNbr _ _ bk => if k_quick bk then None else Some (map (fun x => conv_nstat (snd x)) (k_rows bk))
+  | SMab _ => None
+  end.
+
+Fixpoint opt_all {T} (l : list (option T)) : option (list T) :=
+  match l with
+  | [] => Some []
+  | Some x :: t => option_map (cons x) (opt_all t)
+  | None :: _ => None
+  end.
+
+(* the evaluation of the test rows [lo, lo + length decs) for one statistic: per arm the statistics of the credited values,
+   None = the all-NaN record of an arm that was never predicted *)
+Definition sim_evaluate (arms : list A) (stat : @stats R -> R) (train : list (A * @stats R)) (b : sbandit) (preds : list (option A))
+           (lo : nat) (decs : list A) (rews : list R) : option (list (A * option (@stats R))) :=
+  match opt_all (slice lo (lo + length decs) preds) with
+  | None => None
+  | Some ps =>
+      let ns := match bandit_nstats b with
+                | Some l => slice lo (lo + length decs) l ++ repeat None (length decs)
+                | None => repeat None (length decs)
+                end in
+      Some (map (fun a => (a, match arm_credits N aeqb stat train ns ps decs rews a with [] => None | cr => Some (get_stats N cr) end)) arms)
+  end.
 
 End SimRun.
